@@ -117,6 +117,33 @@ func (e *Engine) addFramePropObligations() {
 		sort.Strings(sh)
 		e.frameObl("frame:"+fi.Key+"/no-shared-generator-object", []string{"C11"}, len(sh) == 0, e.posStr(fi.Decl.Pos()),
 			fi.Key+" uses no random source shared between contexts through a package-level pointer", "uses "+strings.Join(sh, ", "))
+		// ---- C11: no reusable container object (sync.Pool, sync.Map, bytes.Buffer, strings.Builder, container/*, channels)
+		// shared between contexts through a package-level variable: whatever one VM puts in, another takes out ----
+		var pools []string
+		for v, pos := range fe.GlobalsRead {
+			if v.Pkg() != e.P.Pkg.Types {
+				continue
+			}
+			t := v.Type()
+			if p, ok := t.Underlying().(*types.Pointer); ok {
+				t = p.Elem()
+			}
+			if _, isChan := t.Underlying().(*types.Chan); isChan {
+				pools = append(pools, v.Name()+"@"+pos)
+				continue
+			}
+			if nt, ok := t.(*types.Named); ok && nt.Obj().Pkg() != nil {
+				switch nt.Obj().Pkg().Path() {
+				case "sync", "bytes", "strings", "container/list", "container/heap", "container/ring", "sync/atomic":
+					if n := nt.Obj().Name(); n != "Mutex" && n != "RWMutex" && n != "Once" {
+						pools = append(pools, v.Name()+" ("+nt.Obj().Pkg().Path()+"."+n+")@"+pos)
+					}
+				}
+			}
+		}
+		sort.Strings(pools)
+		e.frameObl("frame:"+fi.Key+"/no-shared-container-object", []string{"C11"}, len(pools) == 0, e.posStr(fi.Decl.Pos()),
+			fi.Key+" uses no reusable container (pool, buffer, builder, list, channel) shared between contexts through a package-level variable", "uses "+strings.Join(pools, ", "))
 		// ---- C06 / C11: no use of a process-global random generator or clock in a result-relevant way ----
 		var g []string
 		for name, pos := range fe.ExtCalls {
